@@ -24,7 +24,7 @@ Go function ↦ definition here
 * `sizeClassQueue.getOrCreateInvocation`    ↦ `getOrCreate`
 * `invocation.removeIfEmpty`                ↦ `Node.isEmptyInv`, `pruneP` (all levels of a path), `pruneChain`
                                                (the `for i.removeIfEmpty() { i = i.parent }` loop of `operation.remove`)
-* `invocation.incrementExecutingWorkersCount` / `decrementExecutingWorkersCount` ↦ `incExec` / `decExec`
+* `invocation.incrementExecutingWorkersCount` / `decrementExecutingWorkersCount` ↦ `incExecR` / `decExecR`
 * `invocation.updateFirstOperationPriority` ↦ `updPrio`
 * `operation.enqueue` / `removeQueuedFromInvocation` ↦ `enqueueOp` / `removeQueuedOp`
 * `worker.setLastInvocation` / `clearLastInvocation` ↦ `setLastN` / `clearLastN`
@@ -143,12 +143,12 @@ def pruneChain (ns : List Node) (q : ScqId) : List (List Nat) → List Node
     | some i => if i.isEmptyInv then pruneChain (ns.filter (fun n => !n.isAt q pi)) q rest else ns
     | none => ns
 
-/-- `invocation.incrementExecutingWorkersCount` -/
+/-- the counter part of `invocation.incrementExecutingWorkersCount` (see `incExecR`) -/
 def incExec (ns : List Node) (q : ScqId) (p : List Nat) (w : WKey) (now : Nat) : List Node :=
   updPath ns q p (fun n => { n with exec := minc w n.exec, started := now })
 
-/-- `invocation.decrementExecutingWorkersCount` (the per-level `removeIfEmpty` only reads the
-level's own fields, so pruning after the loop is the same) -/
+/-- the counter part of `invocation.decrementExecutingWorkersCount` (see `decExecR`; the per-level
+`removeIfEmpty` only reads the level's own fields, so pruning after the loop is the same) -/
 def decExec (ns : List Node) (q : ScqId) (p : List Nat) (w : WKey) (now : Nat) : List Node :=
   pruneP (updPath ns q p (fun n => { n with exec := mdec w n.exec, completed := now })) q p
 
@@ -188,6 +188,32 @@ def updPrio (prioOf : Nat → Int) (ns : List Node) (n : Node) : Node :=
   else match bestKid ns n with
     | some c => { n with prio := c.prio }
     | none => n
+
+/-- `i.parent.updateFirstOperationPriority()` for the invocation `i` at `pi` (the root's cache is refreshed
+here too, unlike in `enqueue` / `removeQueuedFromInvocation`) -/
+def refreshStep (prioOf : Nat → Int) (q : ScqId) (ns : List Node) (pi : List Nat) : List Node :=
+  match node? ns q pi.dropLast with
+  | none => ns
+  | some P => updNode ns q pi.dropLast (fun _ => updPrio prioOf ns P)
+
+/-- the refreshes of one `increment/decrementExecutingWorkersCount` loop, bottom-up.  In the code they are
+interleaved with the counter updates of the same loop; a refresh reads the counters and caches of the
+CHILDREN of the refreshed invocation only, and of those the loop has already updated the one on the path,
+so running them after all counter updates is the same. -/
+def refreshUp (prioOf : Nat → Int) (ns : List Node) (q : ScqId) (p : List Nat) : List Node :=
+  (ups p).foldl (refreshStep prioOf q) ns
+
+/-- `invocation.incrementExecutingWorkersCount`.  `legacy = true`: the code before the fix of
+notes/findings/C04-stale-first-priority.md, which re-sorted `parent.queuedChildren` without refreshing
+`parent.firstQueuedOperationPriority`. -/
+def incExecR (legacy : Bool) (prioOf : Nat → Int) (ns : List Node) (q : ScqId) (p : List Nat) (w : WKey) (now : Nat) :
+    List Node :=
+  if legacy then incExec ns q p w now else refreshUp prioOf (incExec ns q p w now) q p
+
+/-- `invocation.decrementExecutingWorkersCount` (`legacy` as for `incExecR`) -/
+def decExecR (legacy : Bool) (prioOf : Nat → Int) (ns : List Node) (q : ScqId) (p : List Nat) (w : WKey) (now : Nat) :
+    List Node :=
+  if legacy then decExec ns q p w now else refreshUp prioOf (decExec ns q p w now) q p
 
 /-- one iteration of the loop of `operation.enqueue` at the non-root invocation `pi` -/
 def enqStep (prioOf : Nat → Int) (q : ScqId) (ns : List Node) (pi : List Nat) : List Node :=
@@ -349,6 +375,9 @@ structure TState where
   tx : List (Nat × TX)
   limits : List (Nat × List Nat)      -- platform queue ↦ workerInvocationStickinessLimits
   decisions : List Decision           -- ghost, parallel to `s.assigned`
+  /-- `true`: the scheduler before the fix of notes/findings/C04-stale-first-priority.md (no state reachable
+  from `TState.init` has it; kept for the counterexample `C04Tree.legacy_stale_priority_counterexample`) -/
+  legacyPrio : Bool := false
 deriving Repr, Inhabited
 
 def TState.init (cfg : Cfg) : TState :=
@@ -420,11 +449,11 @@ def TState.parkTree (ts : TState) (q : ScqId) (w : WId) : TState :=
 
 /-- `for i := range t.operations { i.incrementExecutingWorkersCount(bq, w) }` -/
 def TState.incOps (ts : TState) (t : Task) (key : WKey) : TState :=
-  { ts with nodes := t.ops.foldl (fun ns o => incExec ns t.scq (ts.invOf o) key ts.s.now) ts.nodes }
+  { ts with nodes := t.ops.foldl (fun ns o => incExecR ts.legacyPrio ts.prioOf ns t.scq (ts.invOf o) key ts.s.now) ts.nodes }
 
 /-- `for i := range t.operations { i.decrementExecutingWorkersCount(bq, w) }` -/
 def TState.decOps (ts : TState) (t : Task) (key : WKey) : TState :=
-  { ts with nodes := t.ops.foldl (fun ns o => decExec ns t.scq (ts.invOf o) key ts.s.now) ts.nodes }
+  { ts with nodes := t.ops.foldl (fun ns o => decExecR ts.legacyPrio ts.prioOf ns t.scq (ts.invOf o) key ts.s.now) ts.nodes }
 
 /-- `for _, o := range t.operations { o.enqueue() }` -/
 def TState.enqOps (ts : TState) (t : Task) : TState :=
@@ -585,7 +614,7 @@ def tComplete (h : Hints) (x : Extras) (ts : TState) (tid : Nat) (r : Resp) (byW
 def TState.removeOpTree (ts : TState) (t : Task) (o : Nat) : TState :=
   match t.response, t.worker with
   | some _, _ => ts
-  | none, some (_, w) => { ts with nodes := decExec ts.nodes t.scq (ts.invOf o) (some w) ts.s.now }
+  | none, some (_, w) => { ts with nodes := decExecR ts.legacyPrio ts.prioOf ts.nodes t.scq (ts.invOf o) (some w) ts.s.now }
   | none, none =>
     { ts with nodes := pruneChain (removeQueuedOp ts.prioOf ts.nodes t.scq (ts.invOf o) o) t.scq (ups (ts.invOf o)) }
 
@@ -681,7 +710,7 @@ def tExecDedup (ts : TState) (c : Nat) (tid : Nat) (t : Task) (inv : List Nat) (
     let ts := ts.setOX opn ⟨inv, prio⟩
     -- QUEUED: `o.enqueue()`; EXECUTING: `i.incrementExecutingWorkersCount(bq, t.currentWorker)`
     let ts := match t.worker with
-      | some (_, w) => { ts with nodes := incExec ts.nodes t.scq inv (some w) ts.s.now }
+      | some (_, w) => { ts with nodes := incExecR ts.legacyPrio ts.prioOf ts.nodes t.scq inv (some w) ts.s.now }
       | none => { ts with nodes := enqueueOp ts.prioOf ts.nodes t.scq inv opn }
     return ts.setS (← streamAttach s c opn)
 
